@@ -266,6 +266,48 @@ EDITS = {"u_flip": _e_u_flip, "u_scale": _e_u_scale, "u_zero": _e_u_zero, "u_ass
          "bc_edit": _e_bc_edit, "bc_ppm": _e_bc_ppm}
 
 
+def _relayout(a, how):
+    """The same values in another memory layout (never C-contiguous unless the array is 0/1-D of length <= 1)."""
+    a = np.asarray(a)
+    if how == "fortran":
+        return np.asfortranarray(a) if a.ndim > 1 else a[::1]
+    if how == "strided":                # every other element of a twice-as-large buffer
+        big = np.zeros(tuple(2 * k for k in a.shape) if a.ndim else (), dtype=a.dtype)
+        if a.ndim == 0:
+            return a
+        view = big[tuple(slice(None, None, 2) for _ in a.shape)]
+        view[...] = a
+        return view
+    if how == "reversed_view":          # a negative-stride view that holds the same values
+        if a.ndim == 0:
+            return a
+        flipped = a[tuple(slice(None, None, -1) for _ in a.shape)].copy()
+        return flipped[tuple(slice(None, None, -1) for _ in a.shape)]
+    raise KeyError(how)
+
+
+def make_world_layout(spec, how):
+    """A world whose coefficient and value arrays hold the same numbers as make_world(spec) in another memory layout."""
+    w0 = make_world(spec)
+    w = make_world(spec)
+    m = w.mesh
+    d = U.dim(spec["cls"])
+    for name in ("D", "u", "u2"):
+        f = getattr(w, name)
+        comps = [_relayout(getattr(f, c), how) for c in U.COMP[:d]] + [np.array([])] * (3 - d)
+        setattr(w, name, pf.FaceVariable(m, *comps))
+    w.phi = pf.CellVariable(m, _relayout(np.asarray(w0.phi.value), how), w.bc)
+    w.phi.apply_BCs()
+    w.sol = pf.CellVariable(m, _relayout(np.asarray(w0.sol.value), how), pf.BoundaryConditions(m))
+    w.beta = pf.CellVariable(m, _relayout(np.asarray(w0.beta.value), how))
+    w.M = pf.linearSourceTerm(w.beta)
+    w.v = pf.constantSourceTerm(w.beta)
+    w.rhs_expl = _relayout(w0.rhs_expl, how if how != "fortran" else "strided")
+    w.rfull = _relayout(w0.rfull, how if how != "fortran" else "strided")
+    w.phig = pf.CellVariable(m, _relayout(np.asarray(w0.phig._value), how))
+    return w
+
+
 def _edit_case(case, res):
     """call; edit an input in place the documented way; call again  ==  edit; call  (bit for bit).
     The only difference between the two worlds is the earlier call: whatever a builder keeps from a
@@ -331,6 +373,8 @@ def cases(tier):
             others += [U.spec(c2, shape, ("I",) * d, 1) for c2 in U.CLASSES if U.dim(c2) == d and c2 != cls]
             for o in others:
                 out.append({"grid": U.spec(cls, shape, ("I",) * d, 1), "other": o})
+            for how in ("fortran", "strided", "reversed_view"):
+                out.append({"grid": U.spec(cls, shape, ("I",) * d, 1), "layout": how})
     return out
 
 
@@ -424,6 +468,26 @@ def run_case(case):
     seen = set()
     F = res["findings"]
     gid = U.spec_id(spec)
+    if case.get("layout"):
+        # equal inputs in another memory layout (Fortran order, strided views, negative strides) give bit-identical results
+        for name in MENU:
+            try:
+                r = MENU[name](make_world_layout(spec, case["layout"]))
+            except Exception as e:  # noqa: BLE001
+                F.append({"key": "C15:layout_exception:%s:%s" % (name, case["layout"]), "msg": "%s on %s with %s input arrays raises %s: %s"
+                          % (name, gid, case["layout"], type(e).__name__, str(e)[:100]), "detail": {}})
+                continue
+            res["evals"] += 1
+            res["states"] += 1
+            res["transitions"] += 1
+            res["nontrivial"] += 1
+            if fingerprint(r) != reference(spec, name):
+                F.append({"key": "C15:layout:%s:%s" % (name, case["layout"]),
+                          "msg": "%s on %s: input arrays holding the same values in %s layout give a result that is not bit-identical to the C-contiguous one"
+                                 % (name, gid, case["layout"]), "detail": {"grid": gid}})
+        res["outcomes"] = {"layout:%s" % ("ok" if not F else "viol"): 1}
+        res["sample"] = {"grid": gid, "layout": case["layout"]}
+        return res
     if case.get("other"):
         # every builder on mesh A, then on mesh B (same cell counts): B's result is the fresh-world one
         for name in MENU:
